@@ -3,11 +3,12 @@ from ..core.model import Program
 from ..core.report import CheckContext
 from ..core.resolve import Resolver
 from ..rules import bookkeeping as bk, own
-from .common import run_control
+from .common import run_control, generic_rules
 
 
 def analyse(ctx: CheckContext, p: Program):
     r = Resolver(p)
+    generic_rules(ctx, p, r, "C09")
     bk.check_zone_sum(ctx, p, r)
     bk.check_name_match(ctx, p, r, [f for f in p.all_funcs if f.module.name == "OpenPinch.analysis.indirect_integration_entry"])
     own.check_utility_ownership(ctx, p, r, r.pipeline_cone())
@@ -25,6 +26,8 @@ def run(ctx: CheckContext):
         "the bracketing inequalities DI <= TS <= sum of zones are numeric and NOT decided",
     ]
     ind = "OpenPinch/analysis/indirect_integration_entry.py"
+    run_control(ctx, "C09/skip-already-targeted-zone", analyse, p.root, "OpenPinch/main.py",
+                "    if len(zone.subzones) > 0:\n        z: Zone", "    if f\"{zone.name}/{TargetType.DI.value}\" in zone.targets:\n        return zone\n    if len(zone.subzones) > 0:\n        z: Zone", "RECOMPUTE")
     run_control(ctx, "C09/wrong-attribute-summed", analyse, p.root, ind, "heat_recovery_target += t.heat_recovery_target", "heat_recovery_target += t.heat_recovery_limit", "ACC")
     run_control(ctx, "C09/double-count", analyse, p.root, ind,
                 "        hot_utility_target += t.hot_utility_target\n", "        hot_utility_target += t.hot_utility_target\n        hot_utility_target += t.hot_utility_target\n", "ACC")
